@@ -143,6 +143,13 @@ def _varargs(chk: Check, c: ClassInfo) -> None:
                     if d and len(d) == 1 and d[0] in UNARY_CTORS:
                         # mirroring the builtin's own arity is fine only in __init__ of a mapping
                         bad.append(call)
+        # a loop over the arguments visits every argument: no return / break inside it
+        for lp in walk_no_nested(f.node):
+            if isinstance(lp, ast.For) and isinstance(lp.iter, ast.Name) and lp.iter.id == va.arg:
+                exits = [x for x in ast.walk(lp) if isinstance(x, (ast.Return, ast.Break))]
+                chk.ob("R16.2", "%s:visits-every-argument" % f.qualname, not exits, f.loc(exits[0]) if exits else f.loc(lp),
+                       "%s leaves the loop over its arguments early (%s): the remaining arguments are "
+                       "silently ignored" % (f.qualname, type(exits[0]).__name__.lower() if exits else ""), 1)
         is_map_init = f.name == "__init__" and c.is_subclass_of("abc.MutableMapping")
         chk.ob("R16.2", "%s(*%s)" % (f.qualname, va.arg), not bad or is_map_init,
                f.loc(bad[0]) if bad else f.loc(),
@@ -710,6 +717,55 @@ def _delegation_table(chk: Check) -> None:
         chk.ob("R16.3", "%s.%s:delegates" % (cname, meth), ok, f.loc(),
                "%s.%s must be exactly %s; it is %s" % (cname, meth, show(w) if w[0] != "cmp" else "v in self._data",
                                                        show(got) if got[0] != "?" else got[1]), 2)
+    # subclasses: a read primitive redefined further down must still be that delegation (the
+    # mixins — get, in, pop with a default, the views — are built on it and on its exceptions)
+    read_prims = {"__getitem__", "__contains__", "__iter__", "__len__"}
+    for (cname, meth), want in _DELEGATES.items():
+        if meth not in read_prims:
+            continue
+        for sub_ in repo.subclasses(repo.cls(cname)):
+            f2 = sub_.methods.get(meth)
+            if f2 is None:
+                continue
+            chk.saw(f2)
+            ps2 = f2.param_names()
+
+            def subst2(t):
+                if t == "$store":
+                    return ("attr", ("self",), "_data")
+                if isinstance(t, tuple) and len(t) == 2 and t[0] == "param" and isinstance(t[1], int):
+                    return ("param", ps2[t[1]]) if t[1] < len(ps2) else t
+                if isinstance(t, tuple):
+                    return tuple(subst2(x) for x in t)
+                return t
+            try:
+                got2 = function_term(f2)
+            except OutsideFragment as e:
+                got2 = ("?", str(e))
+            w2 = subst2(want)
+            ok2 = got2 == w2 or (w2[0] == "cmp" and got2 == ("cmpchain", (w2[1],), (w2[2], w2[3])))
+            chk.ob("R16.3", "%s.%s:delegates" % (sub_.qualname, meth), ok2, f2.loc(),
+                   "%s redefines %s, which must stay exactly the wrapped store's operation (same result, "
+                   "same exception for a missing key): it is %s"
+                   % (sub_.qualname, meth, show(got2) if got2[0] != "?" else got2[1]), 2)
+    # operators are the mixins' business: a collection class that defines one itself must be in the
+    # table of operators whose bodies are checked (R16.8)
+    ops = {"__ior__", "__iand__", "__ixor__", "__isub__", "__iadd__", "__imul__", "__and__", "__xor__", "__sub__",
+           "__rand__", "__rxor__", "__rsub__", "__ror__", "__or__", "__le__", "__lt__", "__ge__", "__gt__", "__eq__",
+           "__ne__", "isdisjoint"}
+    checked_ops = {("SetWrapper", n_) for n_ in _OPS} | {("SetWrapper", "__r" + n_[2:]) for n_ in _OPS} | \
+        {("SetWrapper", "__ior__")}
+    roots = [repo.cls("SetWrapper"), repo.cls("ListWrapper"), repo.cls("DictWrapper")]
+    cfg_cls = repo.cls_opt("CFG")
+    for c_ in {k for r in roots for k in [r] + repo.subclasses(r)} | ({cfg_cls} if cfg_cls else set()):
+        for nm_ in sorted(ops & set(c_.methods)):
+            root_name = next((r.name for r in roots if c_ is r or c_.is_subclass_of(r)), c_.name)
+            allowed = (root_name, nm_) in checked_ops and c_.name == root_name
+            chk.ob("R16.8", "%s.%s:operator-from-mixin" % (c_.qualname, nm_), allowed, c_.methods[nm_].loc(),
+                   "%s defines %s itself: the set/sequence/mapping operators come from the collections.abc "
+                   "mixins (snapshot of the operand, de-duplication, one add/discard per element), which "
+                   "are built on the checked primitives; a hand-written one is not covered by them"
+                   % (c_.qualname, nm_), 1)
     # __setitem__/__delitem__ of DictWrapper
     dw = repo.cls("DictWrapper")
     for meth, kind in (("__setitem__", ast.Assign), ("__delitem__", ast.Delete)):
